@@ -330,7 +330,7 @@ def run_scenario(run: Run, scen: dict, rng: random.Random):
 
 
 def check(run: Run, tier: str, seed: int):
-    n = 90 if tier == "quick" else 900
+    n = 180 if tier == "quick" else 900
     N = 3000 if tier == "quick" else 20000
     for i in range(n):
         srng = random.Random(f"C15-{seed}-{i}")
